@@ -322,9 +322,112 @@ def h_jwe_object_again(ctx):
     return Outcome(f"again:{'accepted' if r.ok else 'rejected'}:{'valid' if not reasons else 'invalid'}", vs, nontrivial=(cls_name, first, strict, pos, name, repr(v)))
 
 
+# ------------------------------------------------------------------ E2: registries that live on (and the dict they were configured from)
+OT_JWE = [("ECDH-ES", "P-256"), ("A128GCMKW", "oct16"), ("PBES2-HS256+A128KW", "oct20"), ("dir", "oct16"), ("A128KW", "oct16")]
+OT_EXTRA = {"none": {}, "unknown foo": {"foo": "x"}, "epk of the wrong type": {"epk": 123}, "iv where none belongs": {"iv": "AAAA"}, "p2c where none belongs": {"p2c": 5},
+            "declared tenant": {"tenant": "t1"}, "b64": {"b64": False}}
+
+
+class RegistryOverTime:
+    """One JWERegistry, one plain JWSRegistry and one RFC 7797 JWSRegistry, all three configured from ONE header_registry dict the
+    caller keeps (it declares the parameter 'tenant'), are used for one production after another - refused ones included - and the
+    caller edits its dict in between.  accepted => valid by the tables, and every verdict equals the verdict of the same call on
+    registries fresh from an unedited dict."""
+    fresh_import = True
+    replay_id = {"cls": "RegistryOverTime"}
+
+    def __init__(self):
+        menu = []
+        for alg, kind in OT_JWE:
+            for x in ("none", "unknown foo", "epk of the wrong type", "iv where none belongs", "p2c where none belongs", "declared tenant"):
+                menu.append(("jwe-encrypt", alg, x))
+        for reg in ("plain-jws", "rfc7797-jws"):
+            for x in ("none", "unknown foo", "declared tenant", "b64"):
+                menu.append((reg, "HS256", x))
+        menu += [("caller-edits-its-dict", "-", "del tenant"), ("caller-edits-its-dict", "-", "add foo")]
+        self.MENU = menu
+        self._base = {}
+
+    def make(self):
+        return {"dict": None, "regs": {}, "edited": []}
+
+    def _regs(self, st):
+        from joserfc import jws, jwe, rfc7797
+        from joserfc.registry import HeaderParameter
+        if st["dict"] is None:
+            st["dict"] = {"tenant": HeaderParameter("tenant of the caller", "str")}
+            D = st["dict"]
+            st["regs"] = {"jwe": jwe.JWERegistry(header_registry=D, algorithms=scen.JWE_ALL), "rfc7797-jws": rfc7797.JWSRegistry(header_registry=D, algorithms=["HS256"]),
+                          "plain-jws": jws.JWSRegistry(header_registry=D, algorithms=["HS256"])}
+        return st["regs"]
+
+    def apply(self, st, op):
+        from joserfc import jws, jwe
+        from joserfc.registry import HeaderParameter
+        scen.register_drafts()
+        what, alg, x = op
+        regs = self._regs(st)
+        if what == "caller-edits-its-dict":
+            if x == "del tenant":
+                st["dict"].pop("tenant", None)
+            else:
+                st["dict"]["foo"] = HeaderParameter("added later by the caller for another registry", "str")
+            st["edited"].append(x)
+            return ("edited", x)
+        extra = copy.deepcopy(OT_EXTRA[x])
+        if what == "jwe-encrypt":
+            kind = dict(OT_JWE)[alg]
+            jwk = scen.key(kind)
+            hdr = {"alg": alg, "enc": "A128GCM", **extra}
+            r = call(jwe.encrypt_compact, hdr, b"x", A.jkey(jwk if jwk["kty"] == "oct" else rjwk.public_of(jwk), "dict"), registry=regs["jwe"])
+        else:
+            hdr = {"alg": "HS256", **extra}
+            r = call(jws.serialize_compact, hdr, b"x", A.jkey(scen.key("oct32"), "dict"), registry=regs[what])
+        return ("accepted",) if r.ok else ("refused", type(r.exc).__name__)
+
+    def canon(self, st):
+        from ..history import canon_state
+        return canon_state(st["dict"], st["regs"], prefix="joserfc")
+
+    def bucket(self, obs):
+        return ":".join(obs[:2])
+
+    def baseline(self, op):
+        if op not in self._base:
+            from ..history import fresh_joserfc
+            fresh_joserfc()
+            self._base[op] = self.apply(self.make(), op)
+        return self._base[op]
+
+    def check(self, hist, op, obs, st):
+        what, alg, x = op
+        if what == "caller-edits-its-dict":
+            return []
+        vs = []
+        merged = {"alg": alg, **({"enc": "A128GCM"} if what == "jwe-encrypt" else {}), **OT_EXTRA[x]}
+        reasons = RH.invalid_reasons(merged, "jwe" if what == "jwe-encrypt" else "jws", False, True, {"tenant": (RH.STR, False)}, what == "rfc7797-jws")
+        desc = f"after {list(hist)}: {op} -> {obs}"
+        if obs[0] == "accepted" and reasons:
+            vs.append(viol(f"a registry that was used before accepts an invalid header [{reasons[0].split(' has ')[0] if ' has ' in reasons[0] else reasons[0]}] ({what})", f"{desc}: {reasons}"))
+        base = self.baseline(op)
+        if obs != base:
+            vs.append(viol(f"the verdict of a registry depends on its earlier calls or on later edits of the dict it was configured from ({what})", f"{desc}; on fresh registries {base}"))
+        return vs
+
+
+def make_model(desc):
+    return RegistryOverTime()
+
+
+def registry_histories(tier):
+    from ..history import bfs
+    return bfs(RegistryOverTime(), 3 if tier == "thorough" else 2, budget_s=1500)
+
+
 PARTS = [
     Part("jws-headers", h_jws, bound={"quick": 1, "thorough": 2}, split_depth=4, budget={"quick": 1200, "thorough": 1800}),
     Part("jwe-headers", h_jwe, bound={"quick": 1, "thorough": 1}, split_depth=4, budget={"quick": 1200, "thorough": 1800}),
     Part("jwe-several-recipients", h_jwe_recipients, split_depth=4),
     Part("jwe-object-edited-and-encrypted-again", h_jwe_object_again, split_depth=4),
+    Part("registries-over-time", custom=registry_histories, engine="E2"),
 ]
